@@ -6,15 +6,4 @@ use crate::util::{Case, FindingPred};
 pub const TRANS_LAT: f64 = 0.7297276562269663;
 
 pub static SIGNATURES: &[(&str, FindingPred)] = &[
-  ("R17", r17_tiny_polygon),
 ];
-
-/// R17 — polygon predicates built on un-normalised cross products: ill-conditioned (eps / R^2) for polygons whose
-/// bounding radius is below 1e-6 rad. Any of the listed C12 polygon violations (mon=poly) with R < 1e-6 rad.
-fn r17_tiny_polygon(sig: &str, c: &Case) -> bool {
-  if c.mon() != "poly" || c.get("R").is_none() { return false; }
-  let known_sigs = ["Polygon::contains-differs-from-the-geometric-definition", "cell-flagged-full-has-a-vertex-or-centre-outside-the-polygon",
-    "reported-cell-farther-than-R+2-cell-radii", "polygon-vertex-cell-missing"];
-  if !known_sigs.contains(&sig) { return false; }
-  c.gf("R") < 1e-6
-}
